@@ -150,8 +150,12 @@ AP_READS = ['bbox', 'area', 'shape', 'isscalar', 'len', 'to_mask',
             'do_photometry', 'area_overlap', 'positions',
             'area_overlap_maskA', 'do_photometry_maskB', 'area_overlap_maskB',
             'do_photometry_maskA', 'do_photometry_center', 'area_overlap_subpixel']
+# (several forms share one coordinate with another form: a move along one
+# axis only, `aper.positions = aper.positions + (dx, 0)`)
 POS_FORMS = [(3.2, 4.1), [(3.2, 4.1)], [(3.2, 4.1), (5.0, 6.0)],
-             [(7.5, 2.5), (1.0, 1.0), (2.0, 2.0)], (6.0, 5.5)]
+             [(7.5, 2.5), (1.0, 1.0), (2.0, 2.0)], (6.0, 5.5),
+             (3.2, 7.3), (6.9, 4.1), [(3.2, 9.1)], [(3.2, 4.1), (5.0, 8.0)],
+             [(7.5, 2.5), (1.0, 6.0), (2.0, 2.0)]]
 
 
 def _ap_read(ap, what, data):
